@@ -27,7 +27,9 @@ second round, `Cxx-5/6` = third round with a prompt that steers towards the less
 paths, presets and options) a fourth time (`Cxx-7/8`) and, for six properties, a fifth time (`Cxx-9/10`, prompt asking for the
 places a main-path checker is least likely to reach; that round produced mostly re-inventions, so
 only its new ideas were kept and the round was not extended; agents of later rounds sometimes re-invented an earlier idea, which is
-noted, and exact duplicates of the third round were not kept).  Every change below was confirmed by
+noted, and exact duplicates of the third round were not kept) and, for eight properties (C02, C05, C08, C09, C14, C15, C16, C19), a sixth time
+(`Cxx-11/12`, each prompt naming the code area the earlier rounds had reached least: the low-rank estimator and transformation,
+event-only statistics, unusual fault points, CSV/Arrow corner values, flush points at chunk boundaries, nested settings enums).  Every change below was confirmed by
 me in a scratch worktree (`tools/seedtest.py confirm`: baseline suite with the patch 45/45,
 demonstration with and without the patch) and is kept under `seeded/<id>/` (patch.diff,
 demonstration, howto, meta.json with what it needs to manifest, what I ran, and the checks'
@@ -39,12 +41,14 @@ All %d changes are caught by the quick tier as it stands (last sweep after the f
 strengthening).  %d of them were NOT caught - or only as a broken tie without a failing input, only
 statistically, or only by the check of a neighbouring property - by the checks as they were when the change was first run; every miss was a gap
 in a generator or an absent oracle/tie, never in a theorem, and was closed by extending the check
-(column "history").  The miss rate fell from round to round (15 of 38, 8 of 38, 5 of 30; the 17 new ideas of the fourth round had 6 misses, the 5 of the fifth round 2).  The
+(column "history").  The miss rate fell from round to round (15 of 38, 8 of 38, 5 of 30; the 17 new ideas of the fourth round had 6 misses, the 5 of the fifth round 2, the 16 of the sixth round 1
+as the checks stood when the round was run - C16-12 - and one more, C08-11, that the checks of the round before would have missed: the
+direct-drive tie of the low-rank estimator that catches it was written while the agents were working).  The
 larger extensions that came out of this: the content tie of C09 (installed scales = bit-exact
 estimate over the model's foreground window), the chain-alone reference of C10, the mirror-rebuild
 oracle of C01, the slow-recorder command storms of C11, the default-feature harness of C19, the
 microcanonical / step-factor / re-transformation / rejected-update coverage of C02, the step-size
-search tie of C07.  Two extensions exposed genuine defects of /repo (fixes a495ad3 and 6823555),
+search tie of C07, the direct-drive tie of the low-rank estimator (C08).  Three extensions exposed genuine defects of /repo (fixes a495ad3, 6823555 and c9d2473),
 and the thorough tier and multi-seed sweeps exposed four kinds of false alarm of the machinery
 itself, all removed (faults that were a function of the evaluation number rather than of the
 point; rounding-level energy ties; reference runs compared although scripted faults land on
